@@ -53,6 +53,61 @@ pub fn sssp(adj: &[Vec<(usize, f64)>], src: usize) -> Vec<f64> {
     d
 }
 
+/// betweenness for hop counts by Brandes' algorithm (breadth-first search and accumulation per source, O(n m)):
+/// for graphs too large for the all-pairs tables. Path counts are f64 (finite up to about 2^1023 paths).
+pub fn brandes_hop(s: &Snap, normalized: bool) -> Vec<f64> {
+    let n = s.n();
+    let adj = s.adj_min(true);
+    let mut bc = vec![0.0f64; n];
+    for src in 0..n {
+        let mut dist = vec![usize::MAX; n];
+        let mut sigma = vec![0.0f64; n];
+        let mut order: Vec<usize> = Vec::with_capacity(n);
+        let mut preds: Vec<Vec<usize>> = vec![vec![]; n];
+        dist[src] = 0;
+        sigma[src] = 1.0;
+        let mut queue = std::collections::VecDeque::new();
+        queue.push_back(src);
+        while let Some(u) = queue.pop_front() {
+            order.push(u);
+            for &(v, _) in &adj[u] {
+                if v == u {
+                    continue;
+                }
+                if dist[v] == usize::MAX {
+                    dist[v] = dist[u] + 1;
+                    queue.push_back(v);
+                }
+                if dist[v] == dist[u] + 1 {
+                    sigma[v] += sigma[u];
+                    preds[v].push(u);
+                }
+            }
+        }
+        let mut delta = vec![0.0f64; n];
+        for &w in order.iter().rev() {
+            for &u in &preds[w] {
+                delta[u] += sigma[u] / sigma[w] * (1.0 + delta[w]);
+            }
+            if w != src {
+                bc[w] += delta[w];
+            }
+        }
+    }
+    let scale = if normalized {
+        if n > 2 {
+            1.0 / ((n as f64 - 1.0) * (n as f64 - 2.0))
+        } else {
+            1.0
+        }
+    } else if s.directed {
+        1.0
+    } else {
+        0.5
+    };
+    bc.iter().map(|x| x * scale).collect()
+}
+
 /// single-source distances with a binary heap (non-negative weights): O(m log n), for graphs of tens of thousands of nodes
 pub fn sssp_heap(adj: &[Vec<(usize, f64)>], src: usize) -> Vec<f64> {
     use std::cmp::Reverse;
